@@ -106,3 +106,13 @@ package payload
 //@   on return assert stays-in-the-part-until-done: !called((*Encoder).startNextPart) || ncalls((*Encoder).startNextPart) <= 2
 //@   on return assert progress-is-counted: called(io.Reader.Read) && ncalls((*Encoder).startNextPart) == 0 ==> b.partProgress == old(b.partProgress) + n && b.partProgress < b.binPart.end - b.binPart.beg
 //@   loop 0 invariant 0 <= nn && nn <= n && n <= len(p) && 0 <= n
+
+// ---------------------------------------------------------------- names taken from a request (C14)
+
+// T: filepath.IsLocal(p) decides whether Join(root, p) stays inside root (the uninterpreted local(p))
+//@ spec local(p string) bool
+
+//@ func NewDecoder
+//@   before call path/filepath.IsLocal assert checks-the-decoded-names: arg0 == part.Name || arg0 == part.Renamed
+//@   on return assert names-are-local: r0 != nil ==> forall(k, 0, len(binReader.meta), local(binReader.meta[k].Name) && (binReader.meta[k].Renamed == "" || local(binReader.meta[k].Renamed))) && as(r0, *Decoder) == binReader
+//@   loop 1 invariant -1 <= rangeindex && rangeindex < len(binReader.meta) && forall(k, 0, rangeindex+1, local(binReader.meta[k].Name) && (binReader.meta[k].Renamed == "" || local(binReader.meta[k].Renamed)))
